@@ -466,6 +466,9 @@ ARGS_LOOP:
 		// handle commands and subcommands
 		for k, v := range currentProgramNode.ChildCommands {
 			if k == iterator.Value() {
+				// Hand over what was collected so far, Parse only reads the final node.
+				v.ChildText = append(v.ChildText, currentProgramNode.ChildText...)
+				v.UnknownOptions = append(v.UnknownOptions, currentProgramNode.UnknownOptions...)
 				currentProgramNode = v
 				continue ARGS_LOOP
 			}
